@@ -28,6 +28,10 @@
                                  bytes of the escape (for every oracle whose
                                  ranges lie inside the piece: `LitOk`).
 
+   * `fstring_pieces_cover`      the pieces and the brace escapes between them,
+                                 put together in order, are the whole text of the
+                                 part: no byte is skipped, none is decoded twice
+                                 (`pieces_eq`: those ranges are `pieces t`);
    * `string_error_span_exact`, `decodeLit_string_error_cites_escape`   the same
                                  for a string literal `"m"`: `span.start + 1 + range`
                                  (`simple_literal` + `unescape_str`) designates
@@ -243,5 +247,58 @@ example : decodeLit ⟨['"', '€', '\\', 'q', '"'], ⟨fun _ => false, fun _ =>
       fun f s e => if f = false ∧ s = 0 ∧ e = 7 then some (.custom, 0, 3, 5) else none, []⟩ .string (0, 7)
       ⟨Lexer.new [], [], [], none⟩ = .err ⟨.custom, (4, 6), none⟩ ⟨Lexer.new [], [], [], none⟩ := by
   rfl
+
+/-! ## nothing is lost, nothing is decoded twice -/
+
+/-- the text put together again: every piece, the two bytes of the brace escape behind it, …, the last piece -/
+def rebuildFrom (t : List Char) : List Span → Span → List Char
+  | [], last => textOf t last
+  | r :: rs, last => textOf t r ++ textOf t (r.2, r.2 + 2) ++ rebuildFrom t rs last
+
+theorem chain_rebuild {t : List Char} : ∀ (rs : List Span) (ps ps' : Nat) (pre rest : List Char),
+    t = pre ++ rest → blen pre = ps → ChainFrom t ps rs ps' → rebuildFrom t rs (ps', blen t) = rest := by
+  intro rs
+  induction rs with
+  | nil =>
+    intro ps ps' pre rest ht hp hc
+    simp only [ChainFrom] at hc
+    subst hc
+    show textOf t (ps, blen t) = rest
+    refine textOf_decomp (a := pre) (b := []) (by simpa using ht) hp.symm ?_
+    show blen t = blen pre + blen rest
+    rw [ht, blen_append]
+  | cons r rs ih =>
+    intro ps ps' pre rest ht hp hc
+    obtain ⟨h1, h2, ⟨pre2, c, post, ht2, hb2, hc2⟩, hrest⟩ := hc
+    obtain ⟨m, rfl⟩ := prefix_of_blen_le (ht.symm.trans ht2) (by omega)
+    have hsz : sz c = 1 := by rcases hc2 with rfl | rfl <;> decide
+    have hrest' : rest = m ++ c :: c :: post := by
+      have := ht.symm.trans ht2
+      simpa [List.append_assoc] using this
+    have hbm : r.2 = blen pre + blen m := by rw [← hb2, blen_append]
+    have e1 : textOf t r = m :=
+      textOf_decomp (a := pre) (b := c :: c :: post) (by rw [ht2]) (by omega) hbm
+    have e2 : textOf t (r.2, r.2 + 2) = [c, c] := by
+      refine textOf_decomp (a := pre ++ m) (b := post) (by rw [ht2]; simp) hb2.symm ?_
+      show r.2 + 2 = blen (pre ++ m) + blen [c, c]
+      simp [blen, hsz, hb2]
+    have e3 := ih (r.2 + 2) ps' (pre ++ m ++ [c, c]) post (by rw [ht2]; simp)
+      (by rw [blen_append, hb2]; simp [blen, hsz]) hrest
+    show textOf t r ++ textOf t (r.2, r.2 + 2) ++ rebuildFrom t rs (ps', blen t) = rest
+    rw [e1, e2, e3, hrest']
+    simp
+
+/-- `fstring_pieces_cover`: the pieces `unescape_f_string_part` decodes and the brace escapes between them, put
+together in order, are the whole text of the part — no byte is skipped and none is decoded twice. -/
+theorem fstring_pieces_cover (t : List Char) :
+    rebuildFrom t (uScan .normal 0 0 t []).1 ((uScan .normal 0 0 t []).2, blen t) = t :=
+  chain_rebuild _ 0 _ [] t rfl rfl (scan_chain t)
+
+/-- … and those ranges followed by that last range are `pieces t` -/
+theorem pieces_eq (t : List Char) :
+    pieces t = (uScan .normal 0 0 t []).1 ++ [((uScan .normal 0 0 t []).2, blen t)] := rfl
+
+example : rebuildFrom ['a', '{', '{', '€', '}', '}', 'b'] [(0, 1), (3, 6)] (8, 9) = ['a', '{', '{', '€', '}', '}', 'b'] := by
+  decide
 
 end RotoV.C06FSpans
